@@ -192,8 +192,8 @@ def Quote.cp : Quote → Nat
 inductive SHref where
   /-- `"…"` / `'…'` -/
   | str (q : Quote) (h : Cps)
-  /-- `url(` ws [quote] … [quote] ws `)`; `up`: which letters of `url` are upper case -/
-  | url (up : Bool × Bool × Bool) (pre post : List WsChar) (q : Option Quote) (h : Cps)
+  /-- `url(` ws [quote] … [quote] ws `)`; `up`: letter case and simple escapes of the name `url` -/
+  | url (up : Mask) (pre post : List WsChar) (q : Option Quote) (h : Cps)
   deriving Repr
 
 def SHref.value : SHref → Cps
@@ -378,8 +378,7 @@ def atTok (typ : TT) (kw : Mask) (name : String) : Tok := ⟨typ, 0x40 :: spell 
 def quoteStr (q : Quote) (h : Cps) : Cps :=
   q.cp :: (h.flatMap (fun c => if c = q.cp then [0x5C, c] else [c]) ++ [q.cp])
 
-def urlWord (up : Bool × Bool × Bool) : Cps :=
-  [if up.1 then 0x55 else 0x75, if up.2.1 then 0x52 else 0x72, if up.2.2 then 0x4C else 0x6C]
+def urlWord (up : Mask) : Cps := spell up (CssVerif.Proto.cps "url")
 
 def SHref.tok : SHref → Tok
   | .str q h => ⟨.string, quoteStr q h, 0⟩
